@@ -233,7 +233,7 @@ class ParserEngine(ParserCore, CanParse):
 
         action = self.find_semantic_action(ri.name)
         if action:
-            parseinfo = self.make_parseinfo(node, pos)
+            parseinfo = self.make_parseinfo(ri.name, pos)
             return boundcall(
                 action,
                 {},
